@@ -70,6 +70,9 @@ type c06Env struct {
 	rtype db.ConflictResolverType
 	rfn   string
 	act2  *RestTester
+	src3  string // encoded source id of the third database
+	// conflicts resolved (local + remote + merged) by the last replication run through oneShotRS
+	lastResolved int64
 }
 
 func c06NewEnv(t *testing.T, v4 bool, ndocs int, tag string) *c06Env {
@@ -421,6 +424,7 @@ type c06Step struct {
 	W    int // c06Edit / c06Delete / c06Resurrect
 	Body int // body key >= 2
 	Dir  string
+	RS   *c06RS // "pullr": a one-shot pull with this resolver
 }
 
 func (s c06Step) String() string {
@@ -429,6 +433,8 @@ func (s c06Step) String() string {
 		return fmt.Sprintf("%s%s d%d b%d", map[int]string{c06Edit: "edit", c06Delete: "delete", c06Resurrect: "resurrect"}[s.W], map[int]string{0: "A", 1: "B"}[s.Side], s.Doc, s.Body)
 	case "start":
 		return "start:" + s.Dir
+	case "pullr":
+		return "pull:" + s.RS.String()
 	}
 	return s.Kind
 }
@@ -492,6 +498,9 @@ func (e *c06Env) srcN(src string) int {
 		return 1
 	case e.src[1]:
 		return 2
+	}
+	if e.src3 != "" && src == e.src3 {
+		return 3
 	}
 	return 9
 }
@@ -649,6 +658,25 @@ func (r *c06Runner) do(s c06Step) bool {
 			return false
 		}
 		r.record(s, r.allDocs("Pull"), fmt.Sprintf("(Some (%d, %d))", st.DocsRead, st.RejectedLocal))
+	case "pullr":
+		// a one-shot pull with its own resolver (model: PullP (rt_fun <resolver>) d)
+		st, ok := e.oneShotRS(e.act, db.ActiveReplicatorTypePull, *s.RS)
+		if !ok {
+			return false
+		}
+		var ops []string
+		for i := range e.docs {
+			ops = append(ops, fmt.Sprintf("PullP (rt_fun %s) %d", s.RS.coq(), i))
+		}
+		if s.RS.Kind == "merge" {
+			r.bodies[s.RS.B] = true
+		}
+		if s.RS.Kind == "mix" {
+			for k := 12; k <= 15; k++ {
+				r.bodies[k] = true
+			}
+		}
+		r.record(s, ops, fmt.Sprintf("(Some (%d, %d))", st.DocsRead, st.RejectedLocal))
 	case "push":
 		st, ok := e.oneShot(db.ActiveReplicatorTypePush)
 		if !ok {
@@ -677,9 +705,14 @@ func (r *c06Runner) do(s c06Step) bool {
 
 // the digest table: every revision of the final trees explained as md5(parent, one of the bodies in play)
 func (r *c06Runner) digestTable(trees [][2]c06Obs) (string, bool) {
-	keys := []int{0, 1}
-	for k := range r.bodies {
+	keys := []int{}
+	for k := 0; k <= 30; k++ { // every body a write or a resolver of the harness can produce
 		keys = append(keys, k)
+	}
+	for k := range r.bodies {
+		if k > 30 {
+			keys = append(keys, k)
+		}
 	}
 	sort.Ints(keys)
 	seen := map[string]bool{}
@@ -831,10 +864,25 @@ func c06CorpusVV() []c06Scenario {
 		// doc 1: created on both sides with different bodies
 		{"same-body-both-sides", []c06Step{c06W(A, 0, c06Edit, 3), c06W(B, 0, c06Edit, 3), c06W(A, 1, c06Edit, 2), c06W(B, 1, c06Edit, 3), pull}},
 		{"same-body-both-sides-reversed", []c06Step{c06W(B, 0, c06Edit, 3), c06W(A, 0, c06Edit, 3), pull}},
+		// deepening round: the revision-tree id a resolution is about to write already exists on the local branch
+		// (model VVF.v).  The same first revision on both sides, then edits on the active side before the first sync:
+		// doc 0 -- the active side's write is the later one (local wins, the rewritten revision IS the local revision);
+		// doc 1 -- ... is an ancestor of the local revision (the local branch returned to an earlier body)
+		{"revclash-local-wins", []c06Step{c06W(B, 0, c06Edit, 3), c06W(B, 1, c06Edit, 3), c06W(A, 0, c06Edit, 3), c06W(A, 0, c06Edit, 4),
+			c06W(A, 1, c06Edit, 3), c06W(A, 1, c06Edit, 4), c06W(A, 1, c06Edit, 5), c06W(A, 1, c06Edit, 4), pull, push}},
+		// the passive side's write is the later one (remote wins, the pulled revision is an ancestor of the local one)
+		{"revclash-remote-wins", []c06Step{c06W(A, 0, c06Edit, 3), c06W(A, 0, c06Edit, 4), c06W(A, 1, c06Edit, 2), c06W(A, 1, c06Edit, 3), c06W(A, 1, c06Edit, 4),
+			c06W(B, 0, c06Edit, 3), c06W(B, 1, c06Edit, 2), pull, push}},
 	}...)
 }
 
 func c06StateSig(v4 bool, a, b c06Obs) string {
+	return c06StateSigBW(v4, a, b, -1)
+}
+
+// bw: 1 = the history contains a delete / resurrection on the active side made while its revision tree had more
+// than one leaf (the only histories in which the revision-tree model diverges), 0 = it does not, -1 = not tracked
+func c06StateSigBW(v4 bool, a, b c06Obs, bw int) string {
 	s := "rt:"
 	if v4 {
 		s = "vv:"
@@ -868,6 +916,10 @@ func c06StateSig(v4 bool, a, b c06Obs) string {
 		// the active side tombstoned its own copy of the very revision it pulled (same revision-tree id created
 		// independently on both sides), and carries the passive side's current version on the tombstone
 		cause = ":pulled-revision-tombstoned"
+	case v4 && a.state() == "deleted" && b.state() == "live" && a.CV == b.CV && descends(a.Rev, b.Rev):
+		// the pulled revision-tree id was an ANCESTOR of the local revision: "remote wins" tombstoned the local
+		// revision and had nothing to add (C06_Refuted.C06_remote_wins_ancestor_diverges)
+		cause = ":pulled-ancestor-revision-tombstoned"
 	case a.state() == "deleted" && b.state() == "live":
 		// the delete of the passive side's revision exists on the active side but is not its current revision
 		for id := range parent {
@@ -882,9 +934,22 @@ func c06StateSig(v4 bool, a, b c06Obs) string {
 				cause = ""
 			}
 		}
+	case a.state() == "live" && b.state() == "live":
+		// a resurrection on a dead branch of the active side after a delete that was never replicated
+		// (C06_Refuted.C06_resurrection_on_dead_branch_refuted): the active side's live revision extends one of its
+		// own tombstones and does not descend from the passive side's revision
+		for x := parent[a.Rev]; x != ""; x = parent[x] {
+			if deleted[x] && !descends(a.Rev, b.Rev) {
+				cause = ""
+			}
+		}
 	}
 	if v4 && cause == "" {
 		cause = ":unexplained" // the revision-tree shapes are not expected under the version-vector protocol
+	}
+	if !v4 && bw == 0 && !strings.HasSuffix(cause, ":unexplained") {
+		// no delete / resurrection on a branched active tree in the history: outside every shape the model diverges on
+		cause += ":unexplained"
 	}
 	return s + cause
 }
@@ -901,13 +966,52 @@ func c06RunScenario(t *testing.T, rec *vRecorder, stream string, sc c06Scenario,
 	e := c06NewEnv(t, v4, 3, "")
 	r := &c06Runner{e: e, bodies: map[int]bool{}}
 	hasDelete, hasConflictShape := false, false
+	// per document: a delete / resurrection was made on the ACTIVE side while its revision tree had more than one leaf
+	branchedWrite := make([]int, len(e.docs))
+	leafCount := func(o c06Obs) int {
+		isParent := map[string]bool{}
+		for _, n := range o.Tree {
+			isParent[n.Parent] = true
+		}
+		k := 0
+		for _, n := range o.Tree {
+			if !isParent[n.ID] {
+				k++
+			}
+		}
+		return k
+	}
 	for _, s := range sc.plan {
 		s = r.concretise(s)
 		if s.Kind == "w" && s.W != c06Edit {
 			hasDelete = true
+			if s.Side == 0 && leafCount(e.observe(0, e.docs[s.Doc])) > 1 {
+				branchedWrite[s.Doc] = 1
+			}
+		}
+		// a one-shot pull between two LIVE copies of a document must leave a live document on the pulling side
+		var liveBefore []bool
+		if s.Kind == "pull" || s.Kind == "pullr" {
+			for _, d := range e.docs {
+				x, y := e.observe(0, d), e.observe(1, d)
+				liveBefore = append(liveBefore, x.Exists && !x.Deleted && y.Exists && !y.Deleted)
+			}
 		}
 		if !r.do(s) {
 			break
+		}
+		for i, d := range e.docs {
+			if liveBefore == nil {
+				break
+			}
+			if x := e.observe(0, d); liveBefore[i] && (!x.Exists || x.Deleted) {
+				proto := "rt:"
+				if v4 {
+					proto = "vv:"
+				}
+				rec.Fail("live_pull_keeps_document", proto+"live-live-pull-left-tombstone", map[string]any{"protocol": c06Proto(v4), "scenario": sc.name, "steps": append([]string{}, r.descs...)},
+					fmt.Sprintf("doc %d: both copies were live before the step %q; afterwards the active side shows {rev %s cv %s deleted %v}", i, s, x.Rev, x.CV, x.Deleted))
+			}
 		}
 	}
 	if len(e.infra) == 0 && e.srun {
@@ -946,7 +1050,11 @@ func c06RunScenario(t *testing.T, rec *vRecorder, stream string, sc c06Scenario,
 					same = same && a.Rev == b.Rev
 				}
 				if !same {
-					rec.Fail("peers_converged", c06StateSig(v4, a, b), input,
+					sig := c06StateSigBW(v4, a, b, branchedWrite[i])
+					if a.state() == "live" && c06RawBody(e, 0, d) == db.DeletedDocument {
+						sig = strings.SplitN(sig, "diverged", 2)[0] + "diverged:null-merge-stored-live"
+					}
+					rec.Fail("peers_converged", sig, input,
 						fmt.Sprintf("doc %d after the final pull;push: active {rev %s cv %s deleted %v body %s} passive {rev %s cv %s deleted %v body %s}; push reported %d conflict(s)",
 							i, a.Rev, a.CV, a.Deleted, a.Body, b.Rev, b.CV, b.Deleted, b.Body, pushConflicts))
 				}
@@ -957,12 +1065,15 @@ func c06RunScenario(t *testing.T, rec *vRecorder, stream string, sc c06Scenario,
 					if !o.Exists || o.Deleted {
 						want = 404
 					}
+					if o.Exists && !o.Deleted && o.Body == db.DeletedDocument {
+						continue // what a resolver answering null leaves behind; reported by peers_converged
+					}
 					if code != want || (code == 200 && (rev != o.Rev || body != o.Body)) {
 						rec.Fail("admin_api_consistent", "admin-get-differs", input, fmt.Sprintf("doc %d side %d: GET -> %d rev %s body %s; stored rev %s deleted %v body %s", i, side, code, rev, body, o.Rev, o.Deleted, o.Body))
 					}
 				}
 			}
-			if again[0].DocsRead != 0 || again[1].DocsWritten != 0 {
+			if stuck := strings.Contains(sc.name, "js-null"); !stuck && (again[0].DocsRead != 0 || again[1].DocsWritten != 0) {
 				rec.Fail("caught_up_no_transfer", "rerun-transfers-documents", input,
 					fmt.Sprintf("re-running the caught-up replication read %d and wrote %d documents (checked %d/%d)", again[0].DocsRead, again[1].DocsWritten, again[0].DocsCheckedPull, again[1].DocsCheckedPush))
 			}
@@ -1538,12 +1649,12 @@ func TestVerifC06(t *testing.T) {
 		sc := sc
 		t.Run("corpus-"+sc.name, func(t *testing.T) { c06RunScenario(t, rec, "corpus", sc, false, true) })
 	}
-	nRandom := vBudget(10, 80)
+	nRandom := vBudget(6, 80)
 	for i := 0; i < nRandom; i++ {
 		sc := c06Scenario{name: fmt.Sprintf("random-%d-%d", vSeed(), i), plan: c06Plan(rng, 5+rng.Intn(6), 3)}
 		t.Run(sc.name, func(t *testing.T) { c06RunScenario(t, rec, "random", sc, false, true) })
 	}
-	nBurst := vBudget(3, 24)
+	nBurst := vBudget(2, 24)
 	for i := 0; i < nBurst; i++ {
 		i := i
 		t.Run(fmt.Sprintf("burst-%d", i), func(t *testing.T) { c06RunBurst(t, rec, rng, false, i) })
@@ -1553,7 +1664,7 @@ func TestVerifC06(t *testing.T) {
 		sc := sc
 		t.Run("vv-corpus-"+sc.name, func(t *testing.T) { c06RunScenario(t, rec, "vv", sc, true, true) })
 	}
-	nVV := vBudget(3, 24)
+	nVV := vBudget(2, 24)
 	for i := 0; i < nVV; i++ {
 		sc := c06Scenario{name: fmt.Sprintf("vv-%d-%d", vSeed(), i), plan: c06Plan(rng, 5+rng.Intn(6), 3)}
 		t.Run(sc.name, func(t *testing.T) { c06RunScenario(t, rec, "vv", sc, true, true) })
@@ -1562,14 +1673,16 @@ func TestVerifC06(t *testing.T) {
 		i := i
 		t.Run(fmt.Sprintf("burst-vv-%d", i), func(t *testing.T) { c06RunBurst(t, rec, rng, true, i) })
 	}
-	for i := 0; i < vBudget(3, 12); i++ {
+	for i := 0; i < vBudget(2, 12); i++ {
 		i := i
 		t.Run(fmt.Sprintf("lwread-vv-%d", i), func(t *testing.T) { c06RunLocalWinsRead(t, rec, rng, i) })
 	}
-	for i := 0; i < vBudget(3, 12); i++ {
+	for i := 0; i < vBudget(2, 12); i++ {
 		i := i
 		t.Run(fmt.Sprintf("lwretry-vv-%d", i), func(t *testing.T) { c06RunLocalWinsRetry(t, rec, rng, i) })
 	}
+	// deepening round: custom resolvers, the chain A <-> B <-> C, re-delivery (verif_c06_custom_test.go)
+	c06RunDeepening(t, rec)
 	rec.Extra("wall_s", time.Since(start).Seconds())
 	rec.Extra("exhaustive", false)
 }
